@@ -17,7 +17,9 @@ proper crossings of a ray in a random generic direction, cross-checked by
 the winding number computed from quadrants; invariance under cyclic shifts,
 reversal, closing vertex, repeated vertices; inversion = complement;
 save -> import_all preserves axes, inversion, name, identifier, coordinates
-(bit-exact) and every classification.
+(bit-exact) and every classification; chains of copy(invert=...) from inverted
+and plain, constructed and loaded filters give the complement parity, survive
+save/import_all and act the same through ds.polygon_filter_add/apply_filter.
 """
 import json
 import math
@@ -41,7 +43,9 @@ RULE = ("geometry: polygons with 3..12 vertices (integer grids up to 7x7 with "
         "filters (names with '=', inner/outer blanks, unicode, empty; ids with "
         "gaps; 17-digit coordinates such as 0.1+0.2) saved with save_all / "
         "save(append) / one file object, re-imported after clear_all_filters and "
-        "into a registry with clashing ids; mutated .poly texts. non-trivial: "
+        "into a registry with clashing ids; mutated .poly texts; chains of 1..3 copy(invert=0/1) "
+        "from inverted/plain, constructed/loaded sources, then saved, re-imported and used as a "
+        "dataset polygon filter. non-trivial: "
         "at least one point inside and one outside and off the boundary (geometry), "
         "at least one filter with >= 3 points (persistence); distinct = different case dict")
 TRUSTED_BASE = [
@@ -902,6 +906,137 @@ def run_mutant_impl(case, scratch):
 
 
 # --------------------------------------------------------------------------
+# PolygonFilter.copy(invert=...) chains, directly constructed inverted filters,
+# dataset-level use
+# --------------------------------------------------------------------------
+def gen_copy_case(rng):
+    g = gen_geom_case(rng)
+    return dict(kind="copy", shape=g["shape"], poly=g["poly"], pts=g["pts"][:16],
+                inv0=rng.choice([0, 1, 1]), source=rng.choice(["ctor", "loaded", "ctor"]),
+                flags=[rng.choice([0, 1, 1]) for _ in range(rng.randint(1, 3))],
+                pre=sorted(rng.sample(range(0, 12), rng.choice([0, 1, 2]))),
+                mode=rng.choice(["save_all", "append", "fobj"]))
+
+
+def check_copy_impl(case, scratch, rng):
+    """-> (fail or None, observation for the model: (registry before, [(id, inverted)], registry after))"""
+    import warnings
+    import numpy as np
+    import dclab
+    from dclab.polygon_filter import PolygonFilter
+    poly, pts = case["poly"], case["pts"]
+    judge = exact_judgement(poly, pts, rng)
+    x = np.array([p[0] for p in pts], dtype=float)
+    y = np.array([p[1] for p in pts], dtype=float)
+    path = os.path.join(scratch, "copy_%d.poly" % os.getpid())
+    fail = None
+
+    def expect(filt, inv, what):
+        got = [int(b) for b in filt.filter(x, y)]
+        for k, (j, b) in enumerate(zip(judge, got)):
+            if j["bnd"] or j["near"]:
+                continue
+            if b != (j["inside"] ^ inv):
+                return ("%s (inverted should be %s): point %r classified %d, even-odd rule "
+                        "says %d" % (what, bool(inv), pts[k], b, j["inside"] ^ inv))
+        if bool(filt.inverted) != bool(inv):
+            return "%s: .inverted is %r, should be %r" % (what, filt.inverted, bool(inv))
+        return None
+    try:
+        prepare_registry(case["pre"])
+        with warnings.catch_warnings():
+            warnings.simplefilter("ignore")
+            src = PolygonFilter(axes=("area_um", "deform"), points=np.array(poly, dtype=float),
+                                inverted=bool(case["inv0"]), name="src")
+            if case["source"] == "loaded":
+                src.save(path)
+                # not PolygonFilter.remove(): list.remove compares with __eq__, which
+                # raises for registered filters with another number of points
+                PolygonFilter.instances = [p for p in PolygonFilter.instances if p is not src]
+                src = PolygonFilter.import_all(path)[0]
+                os.remove(path)
+        fail = expect(src, case["inv0"], "source filter (%s)" % case["source"])
+        reg0 = ([int(p.unique_id) for p in PolygonFilter.instances],
+                int(PolygonFilter._instance_counter))
+        cur, inv = src, case["inv0"]
+        copies = []
+        for k, b in enumerate(case["flags"]):
+            before = cur.filter(x, y).copy()
+            known = [p.unique_id for p in PolygonFilter.instances]
+            new = cur.copy(invert=bool(b))
+            inv ^= b
+            after = new.filter(x, y)
+            if fail is None:
+                if b and (after == before).any():
+                    fail = ("copy %d: copy(invert=True) of a filter with inverted=%r is not its "
+                            "complement (point %r)" % (k, cur.inverted,
+                                                       pts[int(np.argmax(after == before))]))
+                elif not b and (after != before).any():
+                    fail = "copy %d: copy(invert=False) classifies differently" % k
+                elif new.unique_id in known:
+                    fail = "copy %d: identifier %d already in use" % (k, new.unique_id)
+                elif list(new.axes) != list(cur.axes) or new.name != cur.name or \
+                        new.points.tobytes() != cur.points.tobytes():
+                    fail = "copy %d: axes/name/points differ from the source" % k
+                else:
+                    fail = expect(new, inv, "copy %d of chain %r" % (k, case["flags"]))
+            copies.append((new, inv))
+            cur = new
+        obs = [[int(c.unique_id), int(bool(c.inverted))] for c, _ in copies]
+        reg1 = ([int(p.unique_id) for p in PolygonFilter.instances],
+                int(PolygonFilter._instance_counter))
+        # dataset level: the last copy as the only polygon filter of a dataset
+        last, linv = copies[-1]
+        if fail is None:
+            with warnings.catch_warnings():
+                warnings.simplefilter("ignore")
+                ds = dclab.new_dataset({"area_um": x, "deform": y})
+                ds.polygon_filter_add(last)
+                ds.apply_filter()
+                got = [int(b) for b in ds.filter.polygon]
+                allf = [int(b) for b in ds.filter.all]
+            for k, (j, b) in enumerate(zip(judge, got)):
+                if not (j["bnd"] or j["near"]) and b != (j["inside"] ^ linv):
+                    fail = ("dataset filter with the %s copy: event %r has polygon filter value "
+                            "%d, should be %d" % ("inverted" if linv else "plain", pts[k], b,
+                                                  j["inside"] ^ linv))
+                    break
+            if fail is None and got != allf:
+                fail = "ds.filter.all differs from ds.filter.polygon with only a polygon filter"
+        # save the copies, import them into a cleared registry
+        if fail is None:
+            want = [(int(bool(c.inverted)), c.filter(x, y).copy(), c.unique_id) for c, _ in copies]
+            keep = [c for c, _ in copies]
+            PolygonFilter.instances = list(keep)
+            save_filters(keep, path, case["mode"])
+            PolygonFilter.clear_all_filters()
+            with warnings.catch_warnings():
+                warnings.simplefilter("ignore")
+                back = PolygonFilter.import_all(path)
+            if len(back) != len(want):
+                fail = "%d copies saved, %d imported" % (len(want), len(back))
+            else:
+                for k, (g, (winv, wcls, wid), (_, einv)) in enumerate(zip(back, want, copies)):
+                    if int(bool(g.inverted)) != einv or (g.filter(x, y) != wcls).any() \
+                            or g.unique_id != wid:
+                        fail = ("copy %d after save/import_all: inverted=%r (expected %r), "
+                                "classification %s" % (k, g.inverted, bool(einv),
+                                                       "changed" if (g.filter(x, y) != wcls).any()
+                                                       else "kept"))
+                        break
+        return fail, (reg0, obs, reg1)
+    finally:
+        PolygonFilter.clear_all_filters()
+        if os.path.exists(path):
+            os.remove(path)
+
+
+def render_copy(case, reg0):
+    return "(%d, %s, %d, %s)" % (case["inv0"], common.zlist(reg0[0]), reg0[1],
+                                 common.zlist(case["flags"]))
+
+
+# --------------------------------------------------------------------------
 # number-format oracle hypotheses, checked directly
 # --------------------------------------------------------------------------
 def check_format_hypotheses(run, rng):
@@ -1065,6 +1200,29 @@ def run(run):
             run.mismatch(c, mi, enc, what="import_all of a mutated file")
 
 
+    # ---------------- copy(invert) chains ----------------
+    ncp = 600 if run.thorough else 70
+    cps = [c for c in corpus if c.get("kind") == "copy"]
+    while len(cps) < ncp:
+        cps.append(gen_copy_case(rng))
+    obs = []
+    for c in cps:
+        fail, ob = check_copy_impl(c, run.scratch, rng)
+        obs.append(ob)
+        run.record_case(c, True, sample=False)
+        run.count("copy:inv0=%d,%s,flags=%s" % (c["inv0"], c["source"],
+                                                "".join(map(str, c["flags"]))))
+        if fail is not None:
+            run.oracle_failure(c, fail, None)
+    modc = common.coq_map(run.scratch, "c15c", HEADER_P, "run_copies",
+                          [render_copy(c, ob[0]) for c, ob in zip(cps, obs)], shard=40)
+    for c, (reg0, ob, reg1), m in zip(cps, obs, modc):
+        run.corr_checked += 1
+        want = [v for pair in ob for v in pair] + [reg1[1]] + reg1[0]
+        if m != want:
+            run.mismatch(c, m, want, what="copy chain: identifiers / inverted flags / registry")
+
+
 # --------------------------------------------------------------------------
 def shrink(run, failure):
     case = failure["case"]
@@ -1124,6 +1282,11 @@ def search(run, broken):
         r = check_geom_impl(c, rng, None)
         if r["fail"] is not None:
             return shrink(run, dict(case=c, desc=r["fail"]))
+    for _ in range(3000 if run.thorough else 600):
+        c = gen_copy_case(rng)
+        fail, _ob = check_copy_impl(c, run.scratch, rng)
+        if fail is not None:
+            return dict(case=c, desc=fail)
     known = set(run.finding_ids())
     for _ in range(5000 if run.thorough else 1000):
         c = gen_persist_case(rng)
@@ -1153,6 +1316,14 @@ def replay(payload):
         return 0
     scratch = tempfile.mkdtemp(prefix="verif-c15-replay-", dir=os.environ.get("VERIF_SCRATCH", "/var/tmp"))
     try:
+        if case["kind"] == "copy":
+            fail, ob = check_copy_impl(case, scratch, random.Random(0))
+            print("copies (id, inverted):", ob[1])
+            if fail:
+                print("FAILS:", fail)
+                return 1
+            print("passes on the current tree")
+            return 0
         if case["kind"] == "persist":
             fail, kind, detail, _ = check_persist_impl(case, scratch)
             if fail:
